@@ -174,10 +174,27 @@ class Emitter:
                                    f'{dct_xml(d.dct, ctx)}<PHYSICAL-TYPE BASE-DATA-TYPE="{d.phys}"/></DATA-OBJECT-PROP>')
         elif isinstance(d, D.DtcDop):
             i = self.new_id("dtcdop")
+            self.memo[key] = i
+            slot = len(self.sec["dtc"])
+            self.sec["dtc"].append(None)
             dtcs = "".join(f'<DTC ID="{i}.{n}"><SHORT-NAME>{n}</SHORT-NAME><TROUBLE-CODE>{c}</TROUBLE-CODE><TEXT>t</TEXT></DTC>'
                            for c, n in d.dtcs)
-            self.sec["dtc"].append(f'<DTC-DOP ID="{i}"><SHORT-NAME>{i}</SHORT-NAME>{dct_xml(d.dct, ctx)}'
-                                   f'<PHYSICAL-TYPE BASE-DATA-TYPE="{d.phys}"/>{compu_xml(d.compu)}<DTCS>{dtcs}</DTCS></DTC-DOP>')
+            # DTC-REF: the DTC is a child of another DTC-DOP of the layer (emitted as well)
+            dtcs += "".join(f'<DTC-REF ID-REF="{self.dop(owner, ctx)}.{n}"/>' for owner, n in (d.dtc_refs or []))
+            linked = ""
+            for l in (d.linked or []):
+                ni = "".join(f'<NOT-INHERITED-DTC-SNREF SHORT-NAME="{n}"/>' for n in l.not_inherited)
+                linked += ("<LINKED-DTC-DOP>" + (f"<NOT-INHERITED-DTC-SNREFS>{ni}</NOT-INHERITED-DTC-SNREFS>" if ni else "")
+                           + f'<DTC-DOP-REF ID-REF="{self.dop(l.dop, ctx)}"/></LINKED-DTC-DOP>')
+            xml = (f'<DTC-DOP ID="{i}"><SHORT-NAME>{i}</SHORT-NAME>{dct_xml(d.dct, ctx)}'
+                   f'<PHYSICAL-TYPE BASE-DATA-TYPE="{d.phys}"/>{compu_xml(d.compu)}<DTCS>{dtcs}</DTCS>'
+                   + (f"<LINKED-DTC-DOPS>{linked}</LINKED-DTC-DOPS>" if linked else "") + "</DTC-DOP>")
+            if d.lib_first:
+                # the DTC-DOPs referred to were appended behind the reserved slot: move this one behind them
+                self.sec["dtc"].pop(slot)
+                self.sec["dtc"].append(xml)
+            else:
+                self.sec["dtc"][slot] = xml
         elif isinstance(d, D.Struct):
             i = self.new_id("st")
             self.memo[key] = i
